@@ -37,10 +37,18 @@ def _compare(got, want, what):
     return []
 
 
-def check_roundtrip(dicts, fmt):
+def check_roundtrip(dicts, fmt, stale=None):
     msgs = [mido.Message(d['type'], **{k: v for k, v in d.items() if k != 'type'}) for d in dicts]
     with tempfile.TemporaryDirectory(prefix='c19_') as tmp:
         path = os.path.join(tmp, 'x.syx')
+        if stale is not None:
+            # the path already holds an older, longer bank in the other format, and it has been read once
+            try:
+                mido.write_syx_file(path, [mido.Message('sysex', data=[1, 2, 3] * 40), mido.Message('sysex', data=[9])],
+                                    plaintext=(stale == 'text'))
+                mido.read_syx_file(path)
+            except Exception as exc:  # noqa: BLE001
+                return [fail('write-raises', f'stale bank: {exc!r}', exc=exc_sig(exc), fmt=fmt)]
         try:
             mido.write_syx_file(path, msgs, plaintext=(fmt == 'text'))
         except Exception as exc:  # noqa: BLE001
@@ -76,7 +84,7 @@ def check_file(raw, want, invalid):
 def run_case(case):
     k = case['kind']
     if k == 'roundtrip':
-        return check_roundtrip(case['msgs'], case['fmt'])
+        return check_roundtrip(case['msgs'], case['fmt'], case.get('stale'))
     return check_file(case['raw'], case.get('want', []), case.get('invalid', False))
 
 
@@ -169,7 +177,8 @@ def hyp_shard(rec, shard):
     block, k, n = shard
     if block == 'rt':
         strat = st.fixed_dictionaries({'kind': st.just('roundtrip'), 'msgs': msg_list(),
-                                       'fmt': st.sampled_from(['bin', 'text'])})
+                                       'fmt': st.sampled_from(['bin', 'text']),
+                                       'stale': st.sampled_from([None, None, 'bin', 'text'])})
         rec.hyp(strat, n, seed_offset=k)
     elif block == 'text':
         rec.hyp(text_files(), n, seed_offset=100 + k)
@@ -185,6 +194,10 @@ def main(ctx):
              [('bin', k, n // 2) for k in range(2)] + [('invalid', k, n // 2) for k in range(2)])
     for fmt in ('bin', 'text'):
         ctx.check({'kind': 'roundtrip', 'msgs': [], 'fmt': fmt})
+        for stale in ('bin', 'text'):
+            ctx.check({'kind': 'roundtrip', 'msgs': [], 'fmt': fmt, 'stale': stale})
+            ctx.check({'kind': 'roundtrip', 'msgs': [R.default_msg('note_on')], 'fmt': fmt, 'stale': stale})
+            ctx.check({'kind': 'roundtrip', 'msgs': [{'type': 'sysex', 'data': [5], 'time': 0}], 'fmt': fmt, 'stale': stale})
         ctx.check({'kind': 'roundtrip', 'msgs': [R.default_msg('note_on'), R.default_msg('clock')], 'fmt': fmt})
         for ln in list(range(0, 140)) + [255, 256, 1000, 3000] + ([10000, 100000] if ctx.tier == 'thorough' else []):
             d = {'type': 'sysex', 'data': [(i * 5 + ln) % 128 for i in range(ln)], 'time': 0}
